@@ -8,7 +8,7 @@ from hypothesis import strategies as st
 
 from core import backends
 from core.model import KEYERROR, ModelStorage, deep_eq
-from core.runner import Check, Ctx, Violation
+from core.runner import Check, Ctx, Enum, Violation
 from core.storage_ops import Backend, model_outcome, op, plan
 
 ID = "C08"
@@ -30,7 +30,7 @@ RULE = (
 )
 ASSUMPTIONS = [
     "SQLite stands for the RDB backend (MySQL/PostgreSQL are not available offline)",
-    "thread interleavings inside one cached client are explored by the C03 scheduler check, not here",
+    "thread interleavings inside a cached client: the read-related races are enumerated here with the C03 scheduler machinery (sub-check `threads`); arbitrary generated thread scenarios are C03's",
 ]
 
 CLIENTS = ["cacheA", "cacheB", "raw", "grpc->raw", "grpc->cache"]
@@ -238,6 +238,36 @@ def run_hist(case: dict[str, Any], ctx: Ctx) -> None:
         fac.release()
 
 
+# ---- (b) threads inside one cached client (and an external raw writer) under the scheduler ------
+
+
+def enum_threads(ctx: Ctx, tier: str, shard: int, nshards: int) -> None:
+    """The read-related classic races of the C03 machinery on the cached layouts: each read
+    through the cache must equal the database at some instant between its invocation and its
+    response (linearizability against ModelStorage), for every single-preemption schedule
+    (quick tier: a stratified sample) of threads sharing one _CachedStorage, of separate cached
+    clients, and of cached threads plus an external raw writer."""
+    from props import c03_linearizable as c03
+
+    wanted = ("create-from-template/read", "create+write/read", "finish, refresh / single read", "refresh / create / single read")
+    jobs = [(lay, name, pre, workers) for lay in ("threads:cached_sqlite", "mixed:cached_sqlite", "procs:cached_sqlite") for (name, pre, workers) in c03.CLASSIC if name in wanted]
+    for i, (lay, name, pre, workers) in enumerate(jobs):
+        if i % nshards != shard:
+            continue
+        ctx.sub = "threads"
+        c03.run_scenario({"layout": lay, "pre": pre, "workers": workers, "multi": [], "salt": i}, ctx)
+        ctx.event("threads:" + name)
+    ctx.exhaustive_parts.append("four read-related races on three cached layouts under the line-level scheduler (single-preemption schedules; quick tier: 24 sampled switch points each)")
+
+
+def _replay_threads(case: dict[str, Any], ctx: Ctx) -> None:
+    from props import c03_linearizable as c03
+
+    c03.run_scenario(case, ctx)
+
+
 CHECKS = [
     Check("history", lambda tier: case_hist(), run_hist, {"quick": 480, "thorough": 16000}, budget_s={"quick": 150, "thorough": 2400}, shrink="ddmin:steps"),
 ]
+ENUMS = [Enum("threads", enum_threads)]
+REPLAY = {"threads": _replay_threads}
